@@ -12,9 +12,10 @@ PGAMMAS = [0.3, 0.5, 0.7, 0.8]
 @st.composite
 def pomdp_specs(draw, min_states=2, max_states=4, max_actions=3, max_obs=3, revealing=False,
                 gammas=None, schemes=("int", "str", "int_gap"), absorbing_kinds=("n", "n", "n", "n", "abs", "imp"),
-                flavour="discounted", reward_lo=-3, reward_hi=3, zero_obs=True, extreme=False, uniform_actions=True):
+                flavour="discounted", reward_lo=-3, reward_hi=3, zero_obs=True, extreme=False, uniform_actions=True,
+                normalise=True):
     spec = draw(mdp_specs(flavour, min_states=min_states, max_states=max_states, max_actions=max_actions,
-                          schemes=schemes, allow_explicit=False, uniform_actions=uniform_actions,
+                          schemes=schemes, allow_explicit=False, uniform_actions=uniform_actions, normalise=normalise,
                           gammas=gammas or PGAMMAS, absorbing_kinds=absorbing_kinds,
                           reward_lo=reward_lo, reward_hi=reward_hi))
     n, m = spec["n"], spec["m"]
